@@ -64,7 +64,19 @@ impl Oracle {
             ("C07", "bits") | ("C14", "bits") => self.bits(&toks[1..], line),
             ("C19", "ctx") => self.c19(&toks[1..], line),
             ("C10", "sei") => self.c10(&toks[1..], line),
-            ("C03", _) => { let o = self.run.run_line(line); if o == "PANIC" { "FAIL panic".into() } else { "ok".into() } }
+            ("C03", _) => {
+                // (the constant covers the parameter-set tables: 256 slots of a PPS, 32 of an SPS - fixed, input-independent sizes)
+                // input size in bytes (hex digits / 2); the whole case execution (library + the harness's own parsing and
+                // rendering, which is linear in input + output) must stay within a fixed multiple of it
+                let len = line.bytes().filter(|b| b.is_ascii_hexdigit()).count() / 2;
+                crate::alloc_count::reset();
+                let o = self.run.run_line(line);
+                let (maxreq, total) = crate::alloc_count::get();
+                if o == "PANIC" { "FAIL panic".into() }
+                else if maxreq > 65536 + 1024 * len { format!("FAIL a single heap request of {} bytes for an input of {} bytes (bound 65536 + 1024*len)", maxreq, len) }
+                else if total > (1 << 20) + 16384 * len + 64 * o.len() { format!("FAIL {} bytes of heap requested in total for an input of {} bytes", total, len) }
+                else { "ok".into() }
+            }
             _ => { let _ = self.run.run_line(line); "ok".into() }
         }
     }
